@@ -301,12 +301,13 @@ def _replay_notify(which):
             other = int(vals["other_hashedid3"]).to_bytes(3, "big")
             names_own = bool(vals["request_names_own_ticket"])
             before = svc.cam_handler.requested_own_certificate
-            svc.notify_inline_p2pcd_request(([own3] if names_own else []) + [other])
+            first = [int(vals["first_hashedid3"]).to_bytes(3, "big")] if vals.get("request_names_another_ticket_first") else []
+            svc.notify_inline_p2pcd_request(first + ([own3] if names_own else []) + [other])
             after = svc.cam_handler.requested_own_certificate
             bad = []
             if names_own and not after:
                 bad.append("a request naming the own ticket does not schedule the certificate")
-            if not names_own and other != own3 and not before and after:
+            if not names_own and other != own3 and own3 not in first and not before and after:
                 bad.append("a request for other tickets only schedules the own certificate")
             return bool(bad), "notify_inline_p2pcd_request: " + ("; ".join(bad) or "as required")
     return f
@@ -532,15 +533,22 @@ def p2pcd(ctx):
     own3 = K3.blob(K3.low3(s.M.hid_of(s.own.d).term), "low3", length=3)
     other3 = K3.blob(I3.int_var("other_hashedid3", 0, 2 ** 24 - 1), "hashedid3", length=3)
     has_own = z3.Bool("request_names_own_ticket")
-    I3.call_function(SignService.notify_inline_p2pcd_request, [s.svc, SList([(has_own, own3), (TRUE, other3)])])
+    # the request list names up to three tickets; the own one may come after another station's
+    first3 = K3.blob(I3.int_var("first_hashedid3", 0, 2 ** 24 - 1), "hashedid3", length=3)
+    has_first = z3.Bool("request_names_another_ticket_first")
+    I3.call_function(SignService.notify_inline_p2pcd_request, [s.svc, SList([(has_first, first3), (has_own, own3), (TRUE, other3)])])
     v3 = s.vars()
     v3["request_names_own_ticket"] = has_own
+    v3["request_names_another_ticket_first"] = has_first
+    v3["first_hashedid3"] = first3.term
     after = I3.to_bool(s.cam.fields["requested_own_certificate"])
     v3["other_hashedid3"] = other3.term
     nope3 = _replay_notify("inline_request")
     ctx.prove("inline-request-for-own-ticket-schedules-the-certificate", I3, z3.And(has_own, z3.Not(after)), vars=v3, replay=nope3,
               desc="notify_inline_p2pcd_request naming the HashedId3 of the own ticket makes the next CAM carry the certificate (P1 then includes it)")
-    ctx.prove("inline-request-for-others-changes-nothing", I3, z3.And(z3.Not(has_own), other3.term != own3.term, z3.Not(s.requested_own), after), vars=v3, replay=nope3)
+    ctx.prove("inline-request-for-others-changes-nothing", I3, z3.And(z3.Not(has_own), other3.term != own3.term, z3.Or(z3.Not(has_first), first3.term != own3.term),
+                                                                      z3.Not(s.requested_own), after), vars=v3, replay=nope3)
+    ctx.witness("inline-request-reach-own-ticket-named-second", I3, z3.And(has_first, has_own, first3.term != own3.term, after), vars=v3, validate=lambda v: not nope3(v)[0])
     ctx.bound("one verified message with arbitrary header; one notification on an arbitrary signer state")
 
 
